@@ -232,6 +232,12 @@ class Executor:
             return z3.And([self.equal(x, y) for x, y in zip(a.py, b.py)] or [z3.BoolVal(True)])
         if a.ty is PY and b.ty is PY:
             return z3.BoolVal(a.py == b.py)
+        for x_, y_ in ((a, b), (b, a)):
+            # a tuple display against a symbolic sequence: same length and element-wise equal
+            yt = y_.ty.inner if isinstance(y_.ty, OptT) else y_.ty
+            if x_.ty is TUPLE and isinstance(yt, SeqT):
+                elems = [self.equal(V(seq_at(y_.term, z3.IntVal(i), yt.elem), yt.elem), self.coerce(xi, yt.elem) if xi.ty is not yt.elem else xi) for i, xi in enumerate(x_.py)]
+                return z3.And([y_.term != NONE, seq_len(y_.term) == len(x_.py)] + elems)
         if a.ty is PY or b.ty is PY or a.ty is TUPLE or b.ty is TUPLE:
             other = b if (a.ty is PY or a.ty is TUPLE) else a
             me = a if other is b else b
